@@ -78,4 +78,90 @@ def direct (inp : EnvInput) (p : Problem K) (m : Option (List Nat)) (reg : List 
   | .minx _ => .ok
   | .reset => .ok
 
+/-! ### round 4: the symbolic facts are facts OF the numeric problem
+
+`direct` branches on `inp.nullity` and `inp.resolves`, symbolic facts that nothing tied to the problem `p`.
+`Facts p inp` ties them to what the numeric model reports for `p`; `answer p c op` is the member function's value
+as a field of `envSolve` on `p` with the caller's configuration `c` — no symbolic fact enters. -/
+
+/-- `defect()` of the numeric model (independent of the regularisation: `defectP_reg`) -/
+def defectP (p : Problem K) : Nat :=
+  match envSolve p with | .ok a => a.defect | .error _ => 0
+
+/-- `solve_x` does not throw BadRegularization for the list `l` -/
+def resolvesP (p : Problem K) (l : List Nat) : Bool :=
+  match envSolve { p with reg := .subset l } with
+  | .ok a => a.xErr != some .BadRegularization
+  | .error _ => true
+
+/-- the symbolic input describes the numeric problem `p`: size, defect and which lists resolve it are those
+    the numeric envelope model reports for `p` -/
+structure Facts (p : Problem K) (inp : EnvInput) : Prop where
+  n : inp.n = p.n
+  nullity : inp.nullity = defectP p
+  resolves : ∀ l, inp.resolves l = resolvesP p l
+
+/-- the value of a member function on problem `p` under the caller's configuration `c` (`none` = all parameters):
+    the corresponding field of `envSolve` — determined by `(p, c, op)` alone -/
+def answer (p : Problem K) (c : Option (List Nat)) : Op → DVal K
+  | .unknowns => xOf (envSolve { p with reg := regOf c })
+  | .residuals => ofE (fun (r : Answer K) => .vec r.r) (envSolve { p with reg := regOf c })
+  | .sumsq => ofE (fun (r : Answer K) => .num r.rtr) (envSolve { p with reg := regOf c })
+  | .defect => ofE (fun (r : Answer K) => .int r.defect) (envSolve { p with reg := regOf c })
+  | .lindep i => ofE .flag (envSolve { p with reg := regOf c } >>= fun r => r.lindep i)
+  | .q0xx i j => ofE .num (envSolve { p with reg := regOf c } >>= fun r => r.q0xx i j)
+  | .qxx i j => ofE .num (envSolve { p with reg := regOf c } >>= fun r => r.qxx i j)
+  | .qbb i j => ofE .num (envSolve { p with reg := regOf c } >>= fun r => r.qbb i j)
+  | .minxAll => .ok
+  | .minx _ => .ok
+  | .reset => .ok
+
+/-! ### the facts the correspondence driver reads from the implementation (`envinfo` line) -/
+
+structure Info where
+  n : Nat
+  nullity : Nat
+  invp : Array Nat          -- 1-based: invp[i-1]
+  width : Array Nat
+  rows : Array (List Nat)
+
+def Info.perm (f : Info) (k : Nat) : Nat :=      -- inverse of invp
+  match (List.range f.n).find? (fun i => f.invp.getD i 0 == k) with
+  | some i => i + 1
+  | none => 0
+
+def Info.inEnvF (f : Info) (ii jj : Nat) : Bool :=
+  let hi := max ii jj
+  let lo := min ii jj
+  hi - lo ≤ f.width.getD (hi - 1) 0
+
+def Info.toInput (f : Info) (resolves : List Nat → Bool) : EnvInput :=
+  { n := f.n, nullity := f.nullity, invp := fun i => f.invp.getD (i - 1) 0,
+    inEnv := f.inEnvF, resolves := resolves,
+    qbbIn := fun i j =>
+      (f.rows.getD (i - 1) []).all fun k => (f.rows.getD (j - 1) []).all fun l =>
+        f.inEnvF (f.invp.getD (k - 1) 0) (f.invp.getD (l - 1) 0) }
+
+/-- the ordering read from the implementation is 1-based and injective on `1..n` (checked by the driver on every
+    `envinfo` line; `Info.toInput_pos`, `worldOf_describes` need exactly this) -/
+def Info.wf (f : Info) : Bool :=
+  (List.range f.n).all fun i => decide (1 ≤ f.invp.getD i 0) &&
+    (List.range f.n).all fun j => i == j || f.invp.getD i 0 != f.invp.getD j 0
+
+/-- the input the driver runs the machine on: the facts read from the implementation, the resolution facts from
+    the numeric problem `p` (identity `d`) -/
+def Info.toInputOf (f : Info) (p : Problem K) (d : Nat) : EnvInput :=
+  { f.toInput (resolvesP p) with id := d }
+
+/-- the probe's facts agree with the numeric problem: ordering well-formed, same size, same defect (the driver
+    refuses the `envinfo` line otherwise, so every input it runs satisfies `Pos`, `Describes`, `Facts`) -/
+def Info.agrees (f : Info) (p : Problem K) : Bool := f.wf && f.n == p.n && f.nullity == defectP p
+
+def emptyProblem : Problem K := { m := 0, n := 0, rows := #[], cov := #[], rhs := #[], reg := .none }
+
+/-- the numeric world of a case: problems by identity (1-based position), inverse orderings from the facts -/
+def worldOf (probs : Array (Problem K)) (infos : Array (Option Info)) : World K :=
+  { prob := fun d => probs.getD (d - 1) emptyProblem
+    perm := fun d k => match infos.getD (d - 1) none with | some f => f.perm k | none => 0 }
+
 end Gama.C04
